@@ -345,6 +345,9 @@ PROPS.update({
 B_MATCH = B('matches', 'LanguageIdentifier::matches and Locale::matches on the product domain of the statement: (3 languages x 3 scripts x 3 regions x 4 variant lists) squared x 4 flag '
                      'pairs x extension shapes (none, -u-ca-buddhist, -x-priv) per side, against the wildcard formula')
 PROPS['C11']['bounded'] = [B_MATCH]
+B_SERDE = B('serde', 'through serde_json (text with escapes and serde_json::Value): every string of the language-identifier token space (7 heads x <= 2 subtags of the '
+                     'boundary-class alphabet) deserialises iff it parses, with an equal value; every parsed value serialises to its canonical string and back; 8 non-string JSON values are errors')
+PROPS['C19']['bounded'] = [B_SERDE]
 PROPS['C10']['bounded'] = [B_MUT]
 PROPS['C04']['bounded'] = [B_RT, B_MUT]
 PROPS['C10']['standin'] = ['locale']
